@@ -276,6 +276,7 @@ PROPS = {
             rapid("pure", "TestC14Pure", 10000, 100000),
             enum("pairs", "TestC14Pairs", env=dict(quick=dict(VERIF_C14_HISTORY_ATOMS=2, VERIF_C14_PROBE_ATOMS=3),
                                                   thorough=dict(VERIF_C14_HISTORY_ATOMS=3, VERIF_C14_PROBE_ATOMS=3))),
+            rapid("long-history", "TestC14LongHistory", 1500, 15000),
             fuzz("pure", "FuzzC14Pure", 45),
         ],
     ),
